@@ -117,10 +117,16 @@ def one_input(ctx, budget, script, kind, errors, expect_canary=False):
     symbols = None
     outcome = None
     State.in_parse = True
+    filters_leak = None
     try:
         with warnings.catch_warnings():
             warnings.simplefilter('ignore')
-            symbols = fsic.parse_model(script)
+            f0 = list(warnings.filters)          # the caller's warnings set-up as parse_model finds it
+            try:
+                symbols = fsic.parse_model(script)
+            finally:
+                if list(warnings.filters) != f0:
+                    filters_leak = [f for f in warnings.filters if f not in f0][:2] or 'filters removed / reordered'
         outcome = 'accepted'
     except errors as e:
         outcome = type(e).__name__
@@ -135,6 +141,9 @@ def one_input(ctx, budget, script, kind, errors, expect_canary=False):
         return
     finally:
         State.in_parse = False
+    if filters_leak is not None:
+        ctx.violation('global-state-changed', f'parse_model({script!r}) left the process-wide warnings filters changed: {filters_leak!r}', case)
+        return
     ctx.count('inputs_parsed')
     ctx.count('parser_steps', budget.steps)
     ctx.seen('outcomes', outcome)
@@ -154,13 +163,19 @@ def one_input(ctx, budget, script, kind, errors, expect_canary=False):
         try:
             with warnings.catch_warnings():
                 warnings.simplefilter('ignore')
+                f0 = list(warnings.filters)
                 Model = fsic.build_model(symbols, converter=conv)
                 m = Model(range(3))
+                if list(warnings.filters) != f0:
+                    filters_leak = True
             ctx.count('accepted_then_built')
         except Exception as e:
             names = {s.name for s in symbols if s.name}
             mech = 'reserved-name-not-instantiable' if (names & RESERVED and Model is not None) else 'accepted-but-unbuildable'
             ctx.violation(mech, f'parse_model accepted {script!r} but {"instantiation" if Model is not None else "build_model"} raised {type(e).__name__}: {str(e)[:200]}', case)
+            return
+        if filters_leak:
+            ctx.violation('global-state-changed', f'building / instantiating {script!r} left the process-wide warnings filters changed', case)
             return
         if State.canary_calls != c0 or State.prints != p0:
             ctx.violation('build-executes-statements', f'building/instantiating {script!r} ran model code', case)
